@@ -135,10 +135,10 @@ REGISTRY = {
                       "of the per-assertion definitions with saturating sums (c03_checker_is_conjunction).",
         "level_note": "One spend / one coin record per query (the checker treats spends independently); H1 shim for the coin-record map; "
                       "argument decoding (negative / oversized -> tautology or failure) is part of C01's parse_args harnesses.",
-        "quick": ["c03_", "arm_lock_"],
+        "quick": ["c03_", "arm_lock_", "c01_args_assert_seconds", "c01_args_assert_height", "c01_args_assert_before", "c01_args_assert_my_birth"],
         "thorough": [],
-        "min_quick": 26,
-        "min_thorough": 26,
+        "min_quick": 36,
+        "min_thorough": 36,
         "timeout_quick": 900,
         "timeout_thorough": 1800,
         "functions": [
@@ -192,10 +192,10 @@ REGISTRY = {
         "level_note": "BLS is modelled (S4): a key is an opaque 48-byte token, 'valid' and 'infinity' are predicates of its first byte, the "
                       "verifier is a recorder with a nondeterministic verdict. Validity of the pairing equation, cache transparency "
                       "and tampering of signature bytes are blst (FFI) and outside (see C15).",
-        "quick": ["c05_", "arm_sig_"],
+        "quick": ["c05_", "arm_sig_", "c11_u64_to_bytes", "c11_coin_id_preimage"],
         "thorough": ["c01_args_agg_sig"],
-        "min_quick": 20,
-        "min_thorough": 28,
+        "min_quick": 22,
+        "min_thorough": 30,
         "timeout_quick": 1200,
         "timeout_thorough": 1800,
         "functions": [
